@@ -1351,14 +1351,10 @@ func c15PartCut(c *verifmc.Check, t *testing.T) {
 	base := t.TempDir()
 	sels := c15Selections(c15BatchClasses, 2)
 	if !c.Thorough() {
-		// quick: singles and unordered pairs (the first class sorts first)
+		// quick: singles and the ordered pairs led by a transfer, a deposit or a poison
 		var keep [][]string
-		idx := map[string]int{}
-		for j, s := range c15BatchClasses {
-			idx[s] = j
-		}
 		for _, s := range sels {
-			if len(s) == 1 || idx[s[0]] < idx[s[1]] || s[0] == "Xg" || s[0] == "Xa" {
+			if len(s) == 1 || s[0] == "T1" || s[0] == "D" || s[0] == "Xg" || s[0] == "Xa" {
 				keep = append(keep, s)
 			}
 		}
